@@ -238,6 +238,11 @@ func (m *Map[K, V]) Load(key K) (value V, ok bool) {
 		var zero V
 		return zero, false
 	}
+	if value_ == nil {
+		// A nil interface value was stored; value_.(V) would panic.
+		var zero V
+		return zero, ok
+	}
 	return value_.(V), ok
 }
 func (m *Map[K, V]) LoadAndDelete(key K) (value V, loaded bool) {
@@ -246,14 +251,26 @@ func (m *Map[K, V]) LoadAndDelete(key K) (value V, loaded bool) {
 		var zero V
 		return zero, false
 	}
+	if value_ == nil {
+		var zero V
+		return zero, ok
+	}
 	return value_.(V), ok
 }
 func (m *Map[K, V]) LoadOrStore(key K, value V) (actual V, loaded bool) {
 	actual_, loaded := m.m.LoadOrStore(key, value)
+	if actual_ == nil {
+		var zero V
+		return zero, loaded
+	}
 	return actual_.(V), loaded
 }
 func (m *Map[K, V]) Range(f func(key K, value V) bool) {
 	m.m.Range(func(key, value interface{}) bool {
+		if value == nil {
+			var zero V
+			return f(key.(K), zero)
+		}
 		return f(key.(K), value.(V))
 	})
 }
